@@ -326,3 +326,53 @@ impl Report {
         }
     }
 }
+
+impl Stats {
+    pub fn to_json(&self) -> Value {
+        json!({
+            "evaluations": self.evaluations,
+            "outcomes": self.outcomes,
+            "nontrivial": self.nontrivial.iter().collect::<Vec<_>>(),
+            "nontrivial_n": self.nontrivial_n,
+            "counters": self.counters,
+            "samples": self.samples,
+            "violations": self.violations.iter().map(|v| json!({"sig": v.sig, "what": v.what, "size": v.size, "replay": v.replay})).collect::<Vec<_>>(),
+        })
+    }
+    pub fn from_json(v: &Value) -> Stats {
+        let mut s = Stats::new();
+        s.evaluations = v["evaluations"].as_u64().unwrap_or(0);
+        if let Some(o) = v["outcomes"].as_object() {
+            for (k, x) in o {
+                s.outcomes.insert(k.clone(), x.as_u64().unwrap_or(0));
+            }
+        }
+        if let Some(o) = v["counters"].as_object() {
+            for (k, x) in o {
+                s.counters.insert(k.clone(), x.as_u64().unwrap_or(0));
+            }
+        }
+        if let Some(a) = v["nontrivial"].as_array() {
+            for x in a {
+                if let Some(h) = x.as_u64() {
+                    s.nontrivial.insert(h);
+                }
+            }
+        }
+        s.nontrivial_n = v["nontrivial_n"].as_u64().unwrap_or(0);
+        if let Some(a) = v["samples"].as_array() {
+            s.samples = a.clone();
+        }
+        if let Some(a) = v["violations"].as_array() {
+            for x in a {
+                s.violations.push(Violation {
+                    sig: x["sig"].as_str().unwrap_or("").to_string(),
+                    what: x["what"].as_str().unwrap_or("").to_string(),
+                    size: x["size"].as_u64().unwrap_or(0) as usize,
+                    replay: x["replay"].clone(),
+                });
+            }
+        }
+        s
+    }
+}
